@@ -89,6 +89,7 @@ OpResult run_slot(const Scn &s, OpSpec &op, int slot, const char *opname, HangPo
 // C18 on the command-line path (implemented next to C15's argv machinery)
 Verdict run_C18_cli(const Scn &s);
 Verdict run_C06_cli(const Scn &s);
+Verdict run_C02_cli(const Scn &s);
 
 // ---- property registry
 typedef Verdict (*RunFn)(const Scn &);
